@@ -694,9 +694,12 @@ class LogicalLinkController(object):
                 log.debug("can't dispatch PDU %s", rcvd_pdu)
 
     def resolve(self, name):
+        sdp = self.sap[1]
+        if sdp is None:
+            return None  # link terminated
         if isinstance(name, (bytes, bytearray)):
-            return self.sap[1].resolve(bytes(name))
-        return self.sap[1].resolve(name.encode('latin'))
+            return sdp.resolve(bytes(name))
+        return sdp.resolve(name.encode('latin'))
 
     def socket(self, socket_type):
         if socket_type == RAW_ACCESS_POINT:
@@ -862,7 +865,8 @@ class LogicalLinkController(object):
     def recvfrom(self, socket):
         if not isinstance(socket, tco.TransmissionControlObject):
             raise err.Error(errno.ENOTSOCK)
-        if not (socket.addr and self.sap[socket.addr]):
+        addr = socket.addr  # may be unbound concurrently by link shutdown
+        if not (addr and self.sap[addr]):
             raise err.Error(errno.EBADF)
         if isinstance(socket, tco.RawAccessPoint):
             return (socket.recv(), None)
@@ -874,7 +878,8 @@ class LogicalLinkController(object):
     def poll(self, socket, event, timeout=None):
         if not isinstance(socket, tco.TransmissionControlObject):
             raise err.Error(errno.ENOTSOCK)
-        if not (socket.addr and self.sap[socket.addr]):
+        addr = socket.addr  # may be unbound concurrently by link shutdown
+        if not (addr and self.sap[addr]):
             raise err.Error(errno.EBADF)
         return socket.poll(event, timeout)
 
